@@ -159,13 +159,13 @@ def validate_traces(files, outdir, jobs=None):
 SUMMARY_RE = re.compile(r"(\d+) states generated, (\d+) distinct states found, (\d+) states left on queue")
 
 
-def tlc_model(cfg, tla, metadir, workers=8, timeout=1800, extra_env=None, capture_prefixes=()):
+def tlc_model(cfg, tla, metadir, workers=8, timeout=1800, extra_env=None, capture_prefixes=(), extra_args=()):
     """Run a bounded model exhaustively. Returns dict(states, transitions, ok, out_lines)."""
     env = dict(os.environ, JAVA_TOOL_OPTIONS="-Xss256m -Xmx16g -XX:ParallelGCThreads=4")
     if extra_env:
         env.update(extra_env)
     cmd = ["timeout", str(timeout), "tlc", "-workers", str(workers), "-metadir", metadir, "-cleanup",
-           "-noGenerateSpecTE", "-config", cfg, tla]
+           "-noGenerateSpecTE", "-config", cfg] + list(extra_args) + [tla]
     t = time.time()
     p = subprocess.run(cmd, cwd=SPEC, env=env, stdout=subprocess.PIPE, stderr=subprocess.STDOUT, text=True)
     shutil.rmtree(metadir, ignore_errors=True)
